@@ -504,8 +504,51 @@ def rule_majorization_lengths(chk, prog):
         (r.bad if bad else r.ok)("lengths (2, 0, -3), %s" % ("neighbour stress" if stress else "all-pairs"), fn.loc(js[0]), bad or "")
 
 
+def rule_apsp_pure(chk, prog):
+    r = chk.rule("APSP-PURE", "the routines of namespace shortest_paths keep nothing between calls: no function-static local (a cache of the "
+                 "adjacency lists keyed by the address of the edge vector answers a second call, with other weights in the same vector, "
+                 "from the previous graph) and no store to a namespace-scope variable", floor=5)
+    for f in prog.all_functions():
+        if not f.body or not f.q.startswith("shortest_paths::") or f.tmpl == "pattern":
+            continue
+        r.count()
+        st = [d for d in f.nodes() if d.get("k") == "VarDecl" and d.get("static") and not str(d.get("t", "")).startswith("const ")]
+        (r.bad if st else r.ok)(f.q, f.where(), "" if not st else "static local `%s` survives between calls" % st[0].get("name"))
+
+
+def rule_ideal_length_untouched(chk, prog):
+    from ..astq import writes, written_field, norm
+    r = chk.rule("IDEAL-LENGTH-AS-GIVEN", "ConstrainedFDLayout::m_idealEdgeLength -- the factor IDEAL-DISTANCES multiplies every path length by -- is the "
+                 "constructor's idealLength parameter, unchanged: every constructor initialises the member from that parameter alone and "
+                 "no function of the five libraries stores to it afterwards (the documented clamp concerns non-positive EDGE lengths, not the "
+                 "ideal length: 0 < idealLength < 1 is a valid scale)", floor=1)
+    fld = "cola::ConstrainedFDLayout::m_idealEdgeLength"
+    ctors = [c for c in prog.fns("cola::ConstrainedFDLayout::ConstrainedFDLayout") if c.body is not None]
+    if not ctors:
+        raise AnalysisBroken("no ConstrainedFDLayout constructor found")
+    for c in ctors:
+        r.count()
+        ini = [i for i in c.d.get("inits", []) if i.get("mq") == fld]
+        pnames = {p_["name"] for p_ in c.params if "double" in p_.get("t", "")}
+        bad = None
+        if len(ini) != 1 or ini[0].get("expr") is None:
+            bad = "the member is not set in the constructor's initialiser list"
+        elif norm(ini[0]["expr"]) not in pnames:
+            bad = "the member is initialised with `%s`, not with the constructor's ideal-length parameter" % norm(ini[0]["expr"])
+        (r.bad if bad else r.ok)("initialiser in %s" % c.key[:60], c.where(), bad or "")
+    for f in prog.all_functions():
+        if not f.body or "/tests/" in f.file:
+            continue
+        for lhs, node, op in writes(f):
+            if written_field(lhs)[0] == fld:
+                r.count()
+                r.bad("store in %s" % f.q, f.loc(node), "m_idealEdgeLength is modified after construction: the exposed matrix is no longer idealLength times the path lengths")
+
+
 def run(chk):
     prog = chk.load()
+    chk.guard(rule_ideal_length_untouched, chk, prog)
+    chk.guard(rule_apsp_pure, chk, prog)
     chk.guard(rule_neighbour_matrix, chk, prog)
     chk.guard(rule_majorization_lengths, chk, prog)
     chk.guard(rule_all_pairs, chk, prog)
